@@ -306,10 +306,20 @@ impl Obs {
     }
 }
 
+/// "special" members of the address universe (none of them can sign: mock_auths would replace a registered
+/// contract by the mock account contract, and the token contract has no __check_auth):
+///  selfi = the deployed contract's OWN address (e.current_contract_address() inside every entry point),
+///  peer  = the address of ANOTHER registered contract (an address that has code),
+///  acct_zero = the account address of the universe (Params::acct) is the all-zero ed25519 account
+///              GAAA...AWHF (the conventional "null" account) instead of a generated one.
+#[derive(Clone, Copy, Default)]
+struct Special { selfi: Option<usize>, peer: Option<usize>, acct_zero: bool }
+const ZERO_ACCOUNT: &str = "GAAAAAAAAAAAAAAAAAAAAAAAAAAAAAAAAAAAAAAAAAAAAAAAAAAAAWHF";
+
 struct Params { kind: Kind, na: usize, owner: usize, manager: usize, max_ttl: u32, init_supply: i128, cap: i128, now0: u32, min_temp: u32, acct: Option<usize> }
 
 struct Sys {
-    e: Env, p: Params, id: Address, a: Vec<Address>, hash: Option<BytesN<32>>,
+    e: Env, p: Params, sp: Special, id: Address, a: Vec<Address>, hash: Option<BytesN<32>>,
     steps: Vec<String>, obs0: String, prev: Obs, dead: bool,
     unread: Vec<bool>,      // accounts whose list status is not read by the observations
     hist_list: Vec<bool>,   // harness-side replay of the successful list operations (labels only)
@@ -320,7 +330,9 @@ struct Sys {
 const V2_WASM: &str = "/repo/examples/upgradeable/testdata/upgradeable_v2_example.wasm";
 
 impl Sys {
-    fn deploy(p: Params) -> Sys {
+    fn deploy(p: Params) -> Sys { Sys::deploy_sp(p, Special::default()) }
+
+    fn deploy_sp(p: Params, sp: Special) -> Sys {
         let e = Env::default();
         e.cost_estimate().budget().reset_unlimited();
         e.cost_estimate().disable_resource_limits();
@@ -334,32 +346,38 @@ impl Sys {
         // one address of the universe may be an ACCOUNT address: it can receive in muxed form (and hold
         // tokens, be listed ...) but mock_auths cannot sign for it, so it never authorises anything
         let a: Vec<Address> = (0..p.na).map(|i| if Some(i) == p.acct {
-            use soroban_sdk::testutils::MuxedAddress as _; soroban_sdk::MuxedAddress::generate(&e).address()
-        } else { Address::generate(&e) }).collect();
+            if sp.acct_zero { Address::from_str(&e, ZERO_ACCOUNT) }
+            else { use soroban_sdk::testutils::MuxedAddress as _; soroban_sdk::MuxedAddress::generate(&e).address() }
+        } else if Some(i) == sp.peer { e.register(upg_lib::UpgLib, ()) }
+        else { Address::generate(&e) }).collect();
+        // the contract's own address as a member of the universe: the address is chosen first, the
+        // contract is registered AT it
+        let at: Option<Address> = sp.selfi.map(|i| a[i].clone());
+        macro_rules! reg { ($c:expr, $args:expr) => { match &at { Some(x) => e.register_at(x, $c, $args), None => e.register($c, $args) } } }
         let nm = SString::from_str(&e, "Tok");
         let sy = SString::from_str(&e, "TK");
         // a constructor that refuses arguments the model accepts must show up as a disagreement,
         // not as a crash of the harness
         let reg = std::panic::catch_unwind(std::panic::AssertUnwindSafe(|| match p.kind {
-            Kind::Paus => e.register(ex_pausable::ExampleContract, (nm.clone(), sy.clone(), &a[p.owner], p.init_supply)),
-            Kind::AllowEx => e.register(ex_allowlist::ExampleContract, (nm.clone(), sy.clone(), &a[p.owner], &a[p.manager], p.init_supply)),
-            Kind::BlockEx => e.register(ex_blocklist::ExampleContract, (nm.clone(), sy.clone(), &a[p.owner], &a[p.manager], p.init_supply)),
-            Kind::CapEx => e.register(ex_capped::ExampleContract, (p.cap,)),
-            Kind::AllowLib => e.register(allow_lib::AllowLib, ()),
-            Kind::BlockLib => e.register(block_lib::BlockLib, ()),
-            Kind::CapLib => e.register(cap_lib::CapLib, ()),
-            Kind::PausLib => e.register(paus_lib::PausLib, ()),
-            Kind::UpgV1 => e.register(ex_upg_v1::ExampleContract, (&a[p.owner],)),
-            Kind::PausEx => e.register(ex_counter::ExampleContract, (&a[p.owner],)),
-            Kind::UpgV2 => e.register(upg_v2::UpgV2, (&a[p.owner],)),
-            Kind::UpgLib => e.register(upg_lib::UpgLib, ()),
+            Kind::Paus => reg!(ex_pausable::ExampleContract, (nm.clone(), sy.clone(), &a[p.owner], p.init_supply)),
+            Kind::AllowEx => reg!(ex_allowlist::ExampleContract, (nm.clone(), sy.clone(), &a[p.owner], &a[p.manager], p.init_supply)),
+            Kind::BlockEx => reg!(ex_blocklist::ExampleContract, (nm.clone(), sy.clone(), &a[p.owner], &a[p.manager], p.init_supply)),
+            Kind::CapEx => reg!(ex_capped::ExampleContract, (p.cap,)),
+            Kind::AllowLib => reg!(allow_lib::AllowLib, ()),
+            Kind::BlockLib => reg!(block_lib::BlockLib, ()),
+            Kind::CapLib => reg!(cap_lib::CapLib, ()),
+            Kind::PausLib => reg!(paus_lib::PausLib, ()),
+            Kind::UpgV1 => reg!(ex_upg_v1::ExampleContract, (&a[p.owner],)),
+            Kind::PausEx => reg!(ex_counter::ExampleContract, (&a[p.owner],)),
+            Kind::UpgV2 => reg!(upg_v2::UpgV2, (&a[p.owner],)),
+            Kind::UpgLib => reg!(upg_lib::UpgLib, ()),
         }));
         let id = match reg {
             Ok(id) => id,
             Err(_) => {
                 let dead = Address::generate(&e);
                 let na = p.na;
-                return Sys { e, p, id: dead, a, hash: None, steps: std::vec![], dead: true, unread: std::vec![false; na], hist_list: std::vec![false; na], poisoned: false, broken: std::cell::Cell::new(false),
+                return Sys { e, p, sp, id: dead, a, hash: None, steps: std::vec![], dead: true, unread: std::vec![false; na], hist_list: std::vec![false; na], poisoned: false, broken: std::cell::Cell::new(false),
                     obs0: "(mkObs (-1) [] [] false [] None false None true [])".into(),
                     prev: Obs { supply: -1, bal: std::vec![], alw: std::vec![], paused: false, list: std::vec![], cap: None, mig: false, data: None, trap: true, mgr: std::vec![] } };
             }
@@ -371,7 +389,7 @@ impl Sys {
         let na = p.na;
         let mut hist_list = std::vec![false; na];
         if p.kind == Kind::AllowEx { hist_list[p.owner] = true; }
-        let mut s = Sys { e, p, id, a, hash, steps: std::vec![], obs0: String::new(), dead: false, unread: std::vec![false; na], hist_list, poisoned: false, broken: std::cell::Cell::new(false),
+        let mut s = Sys { e, p, sp, id, a, hash, steps: std::vec![], obs0: String::new(), dead: false, unread: std::vec![false; na], hist_list, poisoned: false, broken: std::cell::Cell::new(false),
             prev: Obs { supply: 0, bal: std::vec![], alw: std::vec![], paused: false, list: std::vec![], cap: None, mig: false, data: None, trap: false, mgr: std::vec![] } };
         s.prev = s.observe();
         s.obs0 = s.prev.coq();
@@ -516,7 +534,25 @@ impl Sys {
     }
 
     /// label qualifier from the observation before the call (which gate was closed)
+    /// label = gate status + "@self" / "@peer" / "@zero" when one of the addresses named by the call is
+    /// the contract's own address / another registered contract / the all-zero account
     fn qualifier(&self, op: &Op, ok: bool) -> String {
+        let parties: Vec<usize> = match op {
+            Op::Transfer(f, t, _) | Op::TransferMux(f, t, _, _) => std::vec![*f, *t],
+            Op::TransferFrom(s, f, t, _) => std::vec![*s, *f, *t],
+            Op::Approve(o, s, _, _) => std::vec![*o, *s],
+            Op::Burn(f, _) | Op::Mint(f, _) => std::vec![*f],
+            Op::BurnFrom(s, f, _) => std::vec![*s, *f],
+            Op::Pause(c) | Op::Unpause(c) | Op::RenounceManager(c) | Op::Upgrade(_, c) | Op::Migrate(_, c) => std::vec![*c],
+            Op::AllowUser(u, o) | Op::DisallowUser(u, o) | Op::BlockUser(u, o) | Op::UnblockUser(u, o) | Op::GrantManager(u, o) | Op::RevokeManager(u, o) => std::vec![*u, *o],
+            _ => std::vec![],
+        };
+        let has = |x: Option<usize>| x.map_or(false, |i| parties.contains(&i));
+        let suffix = if has(self.sp.selfi) { "@self" } else if has(self.sp.peer) { "@peer" } else if self.sp.acct_zero && has(self.p.acct) { "@zero" } else { "" };
+        format!("{}{}", self.qualifier0(op, ok), suffix)
+    }
+
+    fn qualifier0(&self, op: &Op, ok: bool) -> String {
         let k = self.p.kind;
         let p = &self.prev;
         let zero = matches!(op, Op::Transfer(_, _, 0) | Op::TransferMux(_, _, _, 0) | Op::TransferFrom(_, _, _, 0) | Op::Burn(_, 0) | Op::BurnFrom(_, _, 0) | Op::Mint(_, 0) | Op::Approve(_, _, 0, _));
@@ -569,7 +605,7 @@ impl Sys {
 
     fn step(&mut self, out: &mut Out, op: Op, auths: &[usize]) -> bool {
         if self.dead { return false; }
-        let auths: Vec<usize> = auths.iter().copied().filter(|i| Some(*i) != self.p.acct).collect();
+        let auths: Vec<usize> = auths.iter().copied().filter(|i| Some(*i) != self.p.acct && Some(*i) != self.sp.selfi && Some(*i) != self.sp.peer).collect();
         let auths = &auths[..];
         // a muxed receiver must be an account address
         let op = match op { Op::TransferMux(f, t, _, am) if Some(t) != self.p.acct => Op::Transfer(f, t, am), o => o };   // deployment failed: the trace consists of the (wrong) initial observation only
@@ -770,8 +806,24 @@ fn random_op(rng: &mut Rng, s: &Sys, budget_left: &mut u32) -> Op {
     }
 }
 
-fn random_trace(out: &mut Out, rng: &mut Rng, kind: Kind, na: usize, len: usize) {
-    let mut s = Sys::deploy(params(kind, rng, na));
+fn random_trace(out: &mut Out, rng: &mut Rng, kind: Kind, na: usize, len: usize, flavour: u32) {
+    let mut p = params(kind, rng, na);
+    // every 4th trace has a special address in its universe: the contract's own address (flavours 1, 2),
+    // another registered contract (3), the all-zero account (4)
+    let slot = if p.acct.is_some() { na - 2 } else { na - 1 };
+    let special = match flavour {
+        1 | 2 => Special { selfi: Some(slot), ..Special::default() },
+        3 => Special { peer: Some(slot), ..Special::default() },
+        4 => Special { acct_zero: p.acct.is_some(), ..Special::default() },
+        _ => Special::default(),
+    };
+    if flavour != 0 {
+        // keep most of these traces productive: admin and manager can sign (not always)
+        let cant = |i: usize| Some(i) == special.selfi || Some(i) == special.peer || Some(i) == p.acct;
+        if cant(p.owner) && rng.chance(3, 4) { p.owner = 0; }
+        if cant(p.manager) && rng.chance(3, 4) { p.manager = if na > 2 { 1 } else { 0 }; }
+    }
+    let mut s = Sys::deploy_sp(p, special);
     let mut left = 40_000_000u32;
     // list kinds: start from a populated state most of the time (funds on several parties)
     if kind.is_list() && rng.chance(3, 4) {
@@ -855,11 +907,19 @@ fn directed_pausable(out: &mut Out, rng: &mut Rng) {
 /// allow/block list: entry point x party role x list status (x aliasing), then the gates re-opened
 fn directed_lists(out: &mut Out, thorough: bool) {
     let patterns: &[(usize, usize, usize)] = if thorough { &[(1, 2, 3), (1, 1, 3), (1, 2, 1), (1, 3, 3), (1, 1, 1), (0, 2, 3), (3, 0, 1)] } else { &[(1, 2, 3), (1, 1, 3), (1, 2, 1), (1, 3, 3), (1, 1, 1), (0, 2, 3)] };
+    // the receiver slot 2 is an account address (so that it can also be named in muxed form); in the extra
+    // variants it is the token contract's OWN address resp. the address of another registered contract
+    let variants: std::vec::Vec<((usize, usize, usize), Special, Option<usize>, &str)> = patterns.iter().map(|p| (*p, Special::default(), Some(2usize), ""))
+        .chain([((1usize, 2usize, 3usize), Special { selfi: Some(2), ..Special::default() }, None, " to=self"),
+                ((1, 2, 3), Special { peer: Some(2), ..Special::default() }, None, " to=peer"),
+                ((1, 2, 3), Special { acct_zero: true, ..Special::default() }, Some(2), " to=zero")]).collect();
     for kind in [Kind::AllowEx, Kind::AllowLib, Kind::BlockEx, Kind::BlockLib] {
-        for &(f, t, sp) in patterns {
+        for &((f, t, sp), special, acct, vname) in &variants {
             for bits in 0..8u32 {
+                // special receivers: the receiver's own bit decides everything new; keep sender-closed and all-closed as well
+                if !vname.is_empty() && !thorough && !(bits == 0b010 || (special.selfi.is_some() && matches!(bits, 0b000 | 0b001 | 0b111))) { continue; }
                 let (own, man) = (0usize, 3usize);
-                let mut s = Sys::deploy(Params { kind, na: 4, owner: own, manager: man, max_ttl: 100_000, init_supply: 1000, cap: 0, now0: 5, min_temp: 1, acct: Some(2) });
+                let mut s = Sys::deploy_sp(Params { kind, na: 4, owner: own, manager: man, max_ttl: 100_000, init_supply: 1000, cap: 0, now0: 5, min_temp: 1, acct }, special);
                 let open = |s: &mut Sys, out: &mut Out, u: usize| { if kind.is_allow() { s.step(out, Op::AllowUser(u, man), &[man]); } else { s.step(out, Op::UnblockUser(u, man), &[man]); } };
                 let close = |s: &mut Sys, out: &mut Out, u: usize| { if kind.is_allow() { s.step(out, Op::DisallowUser(u, man), &[man]); } else { s.step(out, Op::BlockUser(u, man), &[man]); } };
                 // set-up with every gate open
@@ -902,7 +962,7 @@ fn directed_lists(out: &mut Out, thorough: bool) {
                 if kind.is_allow() { s.step(out, Op::AllowUser(f, own), &[own]); s.step(out, Op::AllowUser(f, man), &[]); }
                 else { s.step(out, Op::UnblockUser(f, own), &[own]); s.step(out, Op::UnblockUser(f, man), &[]); }
                 s.step(out, Op::Transfer(f, t, 1), &[f]);
-                s.finish(out, &format!("directed-lists f{} t{} sp{} closed{:03b}", f, t, sp, bits));
+                s.finish(out, &format!("directed-lists f{} t{} sp{} closed{:03b}{}", f, t, sp, bits, vname));
             }
         }
     }
@@ -975,6 +1035,12 @@ fn directed_upgrade(out: &mut Out) {
         s.step(out, Op::Upgrade(false, own), &[own]);        // failing upgrade does not disturb the pending migration
         s.step(out, Op::Migrate(10, own), &[own]);
         s.step(out, Op::Migrate(11, own), &[own]);
+        // boundary values of the migration data
+        for d in [0u32, u32::MAX, 1] {
+            s.step(out, Op::Upgrade(true, own), &[own]);
+            s.step(out, Op::Migrate(d, own), &[own]);
+            s.step(out, Op::Migrate(d, own), &[own]);
+        }
         s.finish(out, "directed-upgrade-v2");
         let mut s = Sys::deploy(Params { kind: Kind::UpgV1, na: 3, owner: own, manager: 2, max_ttl: 100_000, init_supply: 0, cap: 0, now0: 3, min_temp: 1, acct: None });
         s.step(out, Op::Upgrade(true, other), &[other]);
@@ -991,6 +1057,11 @@ fn directed_upgrade(out: &mut Out) {
         s.step(out, Op::Upgrade(false, own), &[own]);
         s.step(out, Op::Migrate(6, own), &[own]);
         s.step(out, Op::Migrate(7, own), &[own]);
+        for d in [0u32, u32::MAX] {
+            s.step(out, Op::Upgrade(true, own), &[own]);
+            s.step(out, Op::Migrate(d, own), &[own]);
+            s.step(out, Op::Migrate(d, own), &[own]);
+        }
         s.finish(out, "directed-upgrade-v1-to-v2");
     }
     let mut s = Sys::deploy(Params { kind: Kind::UpgLib, na: 2, owner: 0, manager: 1, max_ttl: 100_000, init_supply: 0, cap: 0, now0: 3, min_temp: 1, acct: None });
@@ -1031,6 +1102,209 @@ fn directed_manager(out: &mut Out) {
             del(&mut s, out, u, man, &[man]);
             s.step(out, Op::Transfer(own, u, 5), &[own]);
             s.finish(out, "directed-manager");
+        }
+    }
+}
+
+/// "special" addresses as parties of every call kind: the contract's OWN address (what
+/// e.current_contract_address() returns inside every entry point), the address of ANOTHER registered
+/// contract, and the all-zero account.  None of them can sign, so they appear as receiver, as subject of
+/// the list operations, as mint target, as constructor-appointed admin, and as (necessarily refused)
+/// sender / owner / spender / operator / caller.  Histories: never listed -> closed explicitly (twice) ->
+/// opened (twice) -> closed again, with and without a long stretch in which nobody reads the entry.
+fn directed_special(out: &mut Out) {
+    let x = 2usize;   // the special slot
+    let far = 2_000_000u32;
+    for (fl, special, acct) in [("self", Special { selfi: Some(x), ..Special::default() }, None),
+                                ("peer", Special { peer: Some(x), ..Special::default() }, None),
+                                ("zero", Special { acct_zero: true, ..Special::default() }, Some(x))] {
+        // ---- allow / block lists
+        for kind in [Kind::AllowEx, Kind::AllowLib, Kind::BlockEx, Kind::BlockLib] {
+            for &(gap, min_temp, max_ttl) in &[(0u32, 1u32, 100_000u32), (600_000, 16, 3_000_000)] {
+                let (own, man, u, sp) = (0usize, 3usize, 1usize, 3usize);
+                let mut s = Sys::deploy_sp(Params { kind, na: 4, owner: own, manager: man, max_ttl, init_supply: 1000, cap: 0, now0: 5, min_temp, acct }, special);
+                let open = |s: &mut Sys, out: &mut Out, a: usize| { if kind.is_allow() { s.step(out, Op::AllowUser(a, man), &[man]); } else { s.step(out, Op::UnblockUser(a, man), &[man]); } };
+                let close = |s: &mut Sys, out: &mut Out, a: usize| { if kind.is_allow() { s.step(out, Op::DisallowUser(a, man), &[man]); } else { s.step(out, Op::BlockUser(a, man), &[man]); } };
+                // the calls that name x as a vetted party it can be without signing: the receiver
+                let gated = |s: &mut Sys, out: &mut Out| {
+                    s.step(out, Op::Transfer(u, x, 0), &[u]);
+                    s.step(out, Op::Transfer(u, x, 4), &[u]);
+                    s.step(out, Op::TransferMux(u, x, 7, 4), &[u]);          // a plain transfer unless x is an account
+                    s.step(out, Op::TransferFrom(sp, u, x, 0), &[sp]);
+                    s.step(out, Op::TransferFrom(sp, u, x, 4), &[sp]);
+                };
+                // ... and as a party that would have to sign (refused whatever the list says), also with somebody else's signature
+                let unsigned = |s: &mut Sys, out: &mut Out| {
+                    s.step(out, Op::Transfer(x, u, 1), &[]);
+                    s.step(out, Op::Transfer(x, u, 1), &[u]);
+                    s.step(out, Op::Approve(x, u, 1, far), &[]);
+                    s.step(out, Op::Burn(x, 1), &[]);
+                    s.step(out, Op::TransferFrom(x, u, own, 1), &[]);
+                    s.step(out, Op::BurnFrom(x, u, 1), &[]);
+                    s.step(out, Op::BurnFrom(sp, x, 1), &[sp]);              // x as the owner of an allowance-based burn (no allowance)
+                    s.step(out, Op::TransferFrom(sp, x, u, 0), &[sp]);       // x as the owner of a zero allowance-based transfer
+                };
+                if gap > 0 { s.unread[x] = true; }     // nobody reads x's entry during the long stretches (the first observation did)
+                for a in [own, u, man] { if kind.is_allow() { open(&mut s, out, a); } }
+                if kind.is_lib() { s.step(out, Op::Mint(u, 100), &[]); s.step(out, Op::Mint(own, 100), &[]); } else { s.step(out, Op::Transfer(own, u, 100), &[own]); }
+                s.step(out, Op::Approve(u, sp, 50, far), &[u]);
+                // x in the state the constructor left it in: on no list
+                gated(&mut s, out);
+                unsigned(&mut s, out);
+                close(&mut s, out, x);                                       // allow list: disallowing a never-listed address changes nothing
+                s.step(out, Op::Advance(gap), &[]);
+                gated(&mut s, out);
+                close(&mut s, out, x);
+                gated(&mut s, out);
+                open(&mut s, out, x);
+                s.step(out, Op::Advance(gap), &[]);
+                gated(&mut s, out);
+                open(&mut s, out, x);
+                gated(&mut s, out);
+                unsigned(&mut s, out);                                       // x holds tokens now and is open: still nobody can move them without its signature
+                if kind.is_lib() { s.step(out, Op::Mint(x, 5), &[]); }
+                close(&mut s, out, x);
+                s.step(out, Op::Advance(gap.min(100)), &[]);
+                gated(&mut s, out);
+                unsigned(&mut s, out);
+                // x as operator of the list functions and as holder / granter of the manager role
+                if kind.is_allow() { s.step(out, Op::AllowUser(u, x), &[]); } else { s.step(out, Op::BlockUser(u, x), &[]); }
+                if !kind.is_lib() {
+                    s.step(out, Op::GrantManager(x, own), &[own]);
+                    if kind.is_allow() { s.step(out, Op::AllowUser(x, x), &[]); } else { s.step(out, Op::UnblockUser(x, x), &[]); }
+                    s.step(out, Op::GrantManager(u, x), &[]);
+                    s.step(out, Op::RenounceManager(x), &[]);
+                    s.step(out, Op::RevokeManager(x, own), &[own]);
+                }
+                open(&mut s, out, x);
+                gated(&mut s, out);
+                s.finish(out, &format!("directed-special {} gap{}", fl, gap));
+            }
+        }
+        // ---- pausable token
+        {
+            let (own, u, sp) = (0usize, 1usize, 3usize);
+            let mut s = Sys::deploy_sp(Params { kind: Kind::Paus, na: 4, owner: own, manager: 3, max_ttl: 100_000, init_supply: 1000, cap: 0, now0: 10, min_temp: 1, acct }, special);
+            s.step(out, Op::Transfer(own, u, 300), &[own]);
+            s.step(out, Op::Approve(u, sp, 100, 5000), &[u]);
+            let calls = |s: &mut Sys, out: &mut Out| {
+                s.step(out, Op::Transfer(u, x, 0), &[u]);
+                s.step(out, Op::Transfer(u, x, 5), &[u]);
+                s.step(out, Op::TransferMux(u, x, 9, 5), &[u]);
+                s.step(out, Op::TransferFrom(sp, u, x, 0), &[sp]);
+                s.step(out, Op::TransferFrom(sp, u, x, 5), &[sp]);
+                s.step(out, Op::Mint(x, 0), &[own]);
+                s.step(out, Op::Mint(x, 5), &[own]);
+                s.step(out, Op::Transfer(x, u, 1), &[]);
+                s.step(out, Op::Burn(x, 1), &[]);
+                s.step(out, Op::BurnFrom(sp, x, 0), &[sp]);
+                s.step(out, Op::Approve(x, u, 1, 5000), &[]);
+            };
+            calls(&mut s, out);
+            s.step(out, Op::Pause(x), &[]);
+            s.step(out, Op::Pause(own), &[own]);
+            calls(&mut s, out);
+            s.step(out, Op::Unpause(x), &[]);
+            s.step(out, Op::Unpause(own), &[own]);
+            calls(&mut s, out);
+            s.finish(out, &format!("directed-special {}", fl));
+        }
+        // ---- examples/pausable and the library-level pausable contract: x as caller
+        for kind in [Kind::PausEx, Kind::PausLib] {
+            let au: &[usize] = if kind == Kind::PausEx { &[0] } else { &[] };
+            let mut s = Sys::deploy_sp(Params { kind, na: 3, owner: 0, manager: 1, max_ttl: 100_000, init_supply: 0, cap: 0, now0: 5, min_temp: 1, acct }, special);
+            s.step(out, Op::Unpause(x), &[]);
+            s.step(out, Op::Pause(x), &[]);                // example: refused (not the owner, no signature); library level: no caller check
+            s.step(out, Op::WhenNotPaused, &[]);
+            s.step(out, Op::Pause(0), au);
+            s.step(out, Op::Pause(x), &[]);
+            s.step(out, Op::WhenNotPaused, &[]);
+            s.step(out, Op::Unpause(x), &[]);
+            s.step(out, Op::WhenNotPaused, &[]);
+            s.finish(out, &format!("directed-special {}", fl));
+        }
+        // ---- cap
+        for kind in [Kind::CapEx, Kind::CapLib] {
+            let u = 1usize;
+            let mut s = Sys::deploy_sp(Params { kind, na: 4, owner: 0, manager: 3, max_ttl: 100_000, init_supply: 0, cap: 100, now0: 7, min_temp: 1, acct }, special);
+            if kind == Kind::CapLib { s.step(out, Op::Mint(x, 1), &[]); s.step(out, Op::SetCap(100), &[]); }
+            s.step(out, Op::Mint(u, 10), &[]);
+            s.step(out, Op::Mint(x, 0), &[]);
+            s.step(out, Op::Mint(x, 50), &[]);
+            s.step(out, Op::Mint(x, 41), &[]);
+            s.step(out, Op::Mint(x, i128::MAX), &[]);
+            s.step(out, Op::Mint(x, i128::MAX - 60), &[]);
+            s.step(out, Op::Mint(x, i128::MAX - 59), &[]);
+            s.step(out, Op::Mint(x, -1), &[]);
+            s.step(out, Op::Mint(x, 40), &[]);
+            s.step(out, Op::Mint(x, 1), &[]);
+            s.step(out, Op::Mint(x, 0), &[]);
+            s.step(out, Op::Transfer(u, x, 3), &[u]);
+            s.step(out, Op::Transfer(x, u, 3), &[]);
+            if kind == Kind::CapLib {
+                s.step(out, Op::Burn(x, 1), &[]);
+                s.step(out, Op::Burn(u, 2), &[u]);
+                s.step(out, Op::Mint(x, 3), &[]);
+                s.step(out, Op::Mint(x, 2), &[]);
+            }
+            s.finish(out, &format!("directed-special {}", fl));
+        }
+        // ---- upgrade / migrate: x as operator
+        for kind in [Kind::UpgV1, Kind::UpgV2] {
+            let mut s = Sys::deploy_sp(Params { kind, na: 3, owner: 0, manager: 1, max_ttl: 100_000, init_supply: 0, cap: 0, now0: 3, min_temp: 1, acct }, special);
+            s.step(out, Op::Upgrade(true, x), &[]);
+            s.step(out, Op::Migrate(1, x), &[]);
+            s.step(out, Op::Upgrade(true, 0), &[0]);
+            s.step(out, Op::Migrate(2, x), &[]);
+            s.step(out, Op::Upgrade(true, x), &[]);
+            s.step(out, Op::Migrate(3, 0), &[0]);
+            s.step(out, Op::Migrate(4, x), &[]);
+            s.finish(out, &format!("directed-special {}", fl));
+        }
+        // ---- the special address appointed admin / owner by the constructor (it can never sign)
+        for kind in [Kind::AllowEx, Kind::BlockEx, Kind::Paus, Kind::PausEx, Kind::UpgV1, Kind::UpgV2] {
+            let (own, man, u) = (x, 1usize, 0usize);
+            let mut s = Sys::deploy_sp(Params { kind, na: 3, owner: own, manager: man, max_ttl: 100_000, init_supply: 500, cap: 0, now0: 5, min_temp: 1, acct }, special);
+            match kind {
+                Kind::AllowEx => {
+                    s.step(out, Op::AllowUser(u, man), &[man]);
+                    s.step(out, Op::Transfer(own, u, 1), &[]);
+                    s.step(out, Op::DisallowUser(own, man), &[man]);      // the constructor's allow of the admin is revocable like any other
+                    s.step(out, Op::Transfer(own, u, 1), &[]);
+                    s.step(out, Op::DisallowUser(own, man), &[man]);
+                    s.step(out, Op::AllowUser(own, man), &[man]);
+                    s.step(out, Op::GrantManager(u, own), &[]);
+                    s.step(out, Op::GrantManager(u, own), &[u]);
+                }
+                Kind::BlockEx => {
+                    s.step(out, Op::Transfer(own, u, 1), &[]);
+                    s.step(out, Op::BlockUser(own, man), &[man]);
+                    s.step(out, Op::Transfer(own, u, 1), &[]);
+                    s.step(out, Op::BlockUser(own, man), &[man]);
+                    s.step(out, Op::UnblockUser(own, man), &[man]);
+                    s.step(out, Op::RevokeManager(man, own), &[]);
+                }
+                Kind::Paus => {
+                    s.step(out, Op::Pause(own), &[]);
+                    s.step(out, Op::Mint(u, 1), &[]);
+                    s.step(out, Op::Mint(u, 1), &[u]);
+                    s.step(out, Op::Transfer(own, u, 1), &[]);
+                    s.step(out, Op::Unpause(own), &[]);
+                }
+                Kind::PausEx => {
+                    s.step(out, Op::Pause(own), &[]);
+                    s.step(out, Op::WhenNotPaused, &[]);
+                    s.step(out, Op::WhenPaused, &[]);
+                    s.step(out, Op::Unpause(own), &[]);
+                }
+                _ => {
+                    s.step(out, Op::Upgrade(true, own), &[]);
+                    s.step(out, Op::Upgrade(true, own), &[u]);
+                    s.step(out, Op::Migrate(1, own), &[]);
+                    s.step(out, Op::Upgrade(true, u), &[u]);
+                }
+            }
+            s.finish(out, &format!("directed-special {} as admin", fl));
         }
     }
 }
@@ -1220,24 +1494,26 @@ fn main() {
     directed_upgrade(&mut out);
     directed_persistence(&mut out);
     directed_manager(&mut out);
+    directed_special(&mut out);
     directed_refused_deployments(&mut out);
     exhaustive(&mut out, thorough);
 
-    // random interleavings
+    // random interleavings (VERIF_DIRECTED_ONLY=1: none - used to list the labels the directed corpus alone produces)
+    if std::env::var("VERIF_DIRECTED_ONLY").is_ok() { out.finish(); return; }
     let mult = if thorough { 14 } else { 1 } * scale;
     let len = if thorough { 60 } else { 40 };
     let na = if thorough { 5 } else { 4 };
     for (kind, n) in [(Kind::Paus, 22), (Kind::AllowEx, 14), (Kind::AllowLib, 14), (Kind::BlockEx, 14), (Kind::BlockLib, 14), (Kind::CapEx, 10), (Kind::CapLib, 16)] {
         for i in 0..n * mult {
             let mut r = rng.fork(i as u64);
-            random_trace(&mut out, &mut r, kind, if i % 5 == 4 { 3 } else { na }, len);
+            random_trace(&mut out, &mut r, kind, if i % 5 == 4 { 3 } else { na }, len, if i % 4 == 3 { 1 + (i as u32 / 4) % 4 } else { 0 });
         }
     }
     for kind in [Kind::UpgV1, Kind::UpgV2, Kind::UpgLib, Kind::PausLib, Kind::PausEx] {
         let n = if kind == Kind::UpgV2 { 10 } else { 4 };
         for i in 0..n * mult {
             let mut r = rng.fork(1000 + i as u64);
-            random_trace(&mut out, &mut r, kind, 3, 25);
+            random_trace(&mut out, &mut r, kind, 3, 25, if i % 4 == 3 { 1 + (i as u32 / 4) % 4 } else { 0 });
         }
     }
     out.finish();
